@@ -31,6 +31,10 @@ Types1N == { <<c, e>> : c \in {"list", "vtuple", "deque", "seq"}, e \in Nullable
 \* whose own nullability must not depend on the enclosing position (bare, required field, Optional field) -- F50
 Types1W == { <<"stype", "SW", e>> : e \in NullableElems \cup { <<"int">>, <<"list", <<"int">> >>, <<"opt", <<"list", <<"int">> >> >>,
                                                                <<"opt", <<"vtuple", <<"str">> >> >>, <<"opt", <<"dict", <<"str">>, <<"int">> >> >> } }
+\* a NAME for a nullable type (NewType("NTy", Optional[X]), type TA = Optional[X]): the name is as nullable as what it stands for,
+\* at the top of a codec shape and as a required field alike -- F51
+Types1A == { <<k[1], k[2], e>> : k \in { <<"newtype", "NTy">>, <<"alias695", "TA">> },
+                                 e \in NullableElems \cup { <<"opt", <<"list", <<"int">> >> >>, <<"opt", <<"timedelta">> >>, <<"union", << <<"none">>, <<"dict", <<"str">>, <<"int">> >> >> >> } }
 Inner2 == { t \in Ctor1(RepLeaves, RepKeys) : t[1] \in {"list", "dict", "opt", "tuple", "set", "ntuple", "tdict", "deque", "chainmap", "utuple", "odict"} }
 Types2 == { t \in Ctor1(Inner2, RepKeys) : t[1] \in {"list", "dict", "opt", "tuple", "vtuple", "ntuple", "tdict", "odict", "utuple", "newtype", "mproxy"} }
 \* PEP 646 star syntax  tuple[X, *tuple[Y, ...], Z]  means the same as Tuple[X, Unpack[Tuple[Y, ...]], Z]
@@ -85,7 +89,7 @@ GNode(arg) == <<"dc", "Node", << <<"p", NodeP(arg), <<"req">>, <<>> >>, <<"q", N
 NodeHolder(plain) == <<"dc", "NH", << <<"a", GNode(<<"int">>), <<"req">>, <<>> >>, <<"b", <<"list", GNode(<<"date">>)>>, <<"fac", L(<<>>)>>, <<>> >> >>,
                       IF plain THEN << <<"mixin", "plain">> >> ELSE <<>> >>
 Types1GG == { GNode(<<"int">>), GNode(<<"date">>), GNode(<<"text", "decimal">>), GPair(<<"date">>, <<"list", <<"date">> >>), NodeHolder(TRUE), NodeHolder(FALSE) }
-Types == IF Depth = 0 THEN Leaves ELSE IF Depth = 1 THEN Types1 \cup Types1N \cup Types1W \cup Types1S \cup Types1U \cup Types1I \cup Types1G \cup Types1GG ELSE Types2
+Types == IF Depth = 0 THEN Leaves ELSE IF Depth = 1 THEN Types1 \cup Types1N \cup Types1W \cup Types1A \cup Types1S \cup Types1U \cup Types1I \cup Types1G \cup Types1GG ELSE Types2
 FalsyLeaves == { <<"int">>, <<"float">>, <<"bool">>, <<"str">>, <<"bytes">>, <<"timedelta">>, <<"text", "decimal">>, <<"text", "fraction">> }
 AllTypes == Types \cup { Holder(t) : t \in Types } \cup { PlainHolder(t) : t \in Types }
             \cup (IF Depth = 1 THEN { Chain3(Holder(t)) : t \in Leaves \ { <<"none">> } } \cup { Chain3(PlainHolder(t)) : t \in RepLeaves } ELSE {})
